@@ -2,4 +2,9 @@
 HOOK_COMMITS = []
 NOTES = "See DESIGN.md. Known findings / fixed defects: known_findings.json."
 NOT_BUILT = {}
-BUILT = {}
+BUILT = {
+ "C15": dict(
+   text="Coq theorem fusion_sound (all key functions, all block functions, any nesting depth by iteration) and blockwise_kf_spec over a Gallina model of make_blockwise_back_key_function_flattened / fuse_blockwise_specs; the model is tied to /repo by evaluating it (vm_compute) on the same generated index expressions and fusion trees as the real functions",
+   note="partial: the theorem is about the hand-written model; the tie to the code is differential (generated expressions, all output coordinates; fusion trees depth<=3 with provenance terms). Multi-output generator functions are not modelled.",
+   technique="Rocq proof over Gallina model + vm_compute correspondence with real key functions and fuse_multiple"),
+}
